@@ -196,4 +196,28 @@ CHECKS = {
                "index arithmetic) + vm_compute correspondence of 7 "
                "constructions + direct checks",
  },
+ "C09": {
+  "text": "Theorems (all similarity matrices, thresholds, sizes, setter "
+          "sequences): a pair is linked iff the nodes are distinct and the "
+          "(damped) similarity is strictly above the threshold; raising the "
+          "threshold only removes links; symmetric similarity gives a "
+          "symmetric network without loops; damping by a weight in [0,1] only "
+          "removes links; with the N diagonal entries equal to the maximum, at "
+          "most N*N-1-rank-N off-diagonal entries exceed the threshold chosen "
+          "for a requested density and rank+1 > (1-rho)(N*N-N), i.e. the "
+          "realised density never exceeds the request (order statistics on a "
+          "proved-sorted permutation); the adjacency stays the thresholding of "
+          "the current similarity after every setter sequence. Adjacency and "
+          "density->threshold are compared with the implementation inside "
+          "Coq on matrices with many ties; direct checks of n_links / "
+          "link_density / threshold() consistency, tie shortfall, subclasses.",
+  "design_ref": "DESIGN.md section 5, C09",
+  "note": "trusted: the tanh distance weight is taken from the "
+          "implementation's own float expression (the model receives the "
+          "damped matrix); float32 storage of |S| (generated values are "
+          "exact); the bound on the shortfall by ties is checked, not proved",
+  "technique": "Coq proofs (order statistics, lra) + vm_compute "
+               "correspondence + direct consistency checks over setter "
+               "sequences",
+ },
 }
